@@ -7,23 +7,43 @@ cImageD11.score_and_assign, indexer.fight_over_peaks and
 refinegrains.assignlabels (per-grain translations => per-grain g-vectors, which
 the reference recomputes with the harness geometry model).
 """
+import contextlib
+import io
 import itertools
+import os
+import re
+import tempfile
+import warnings
+from fractions import Fraction
 import numpy as np
 from .. import xtal, sim, geom
-from ..common import rng
+from ..common import rng, WORK
 
-TECHNIQUE = ("runtime reference-model monitor: arg-min over all grains recomputed in longdouble with tie/margin sets; "
-             "conservation ledger (sum of per-grain counts + unassigned = peaks); grain-order permutation differential; "
-             "OpenMP thread-count differential on real libgomp (1..64 threads, chunk-boundary peak counts)")
-LEVEL_TEXT = ("Exploration: scenarios with 1..50 UBIs (independent, near-duplicate, twin-related), 1..1e5 peaks crossing "
-              "the 4096 static chunk size, all tolerances; every label/error/count is compared with the arg-min reference; all "
+TECHNIQUE = ("runtime reference-model monitor: arg-min over all grains recomputed in longdouble with tie/margin sets (exact "
+             "rational model for dyadic cases: strict '<' at the tolerance and exact ties); per-call return value against the "
+             "sequential interval model; conservation ledger (sum of per-grain counts + unassigned = peaks); grain-order "
+             "permutation differential; OpenMP thread-count differential on real libgomp (1..64 threads, chunk-boundary peak counts)")
+LEVEL_TEXT = ("Exploration: scenarios with 1..50 UBIs (independent, near-duplicate, twin-related, exact duplicates; class, grain "
+              "count and peak count drawn independently), 1..1e5 peaks crossing "
+              "the 4096 static chunk size, all tolerances, label arrays starting fresh (-1) or holding stale grain names (zeros as "
+              "the notebook helpers do, random names - this is what reaches the kernel's release branch); every label/error/count/"
+              "return value is compared with the arg-min reference; all "
               "permutations for <=4 grains and random ones otherwise; each scenario is re-run with 1,2,3,4,7,8,16,32,64 threads for "
-              "bit-equality. The instrumented scheduler / TSan tiers for this kernel are part of C20/C13 machinery.")
-LEVEL_NOTE = ("Trusts numpy longdouble and the harness geometry model; ties = errors within the double-rounding band (1e-9 relative + 1e-11(1+|h|)sqrt(err)) of "
-              "the minimum; tolerance margin as in C06; thread schedules are those the OS produces (no schedule control here).")
+              "bit-equality. Consumers: indexer.fight_over_peaks (natural and permuted order, empty list), indexer.getind, "
+              "indexer.saveindexing (parsed file against the reference), nb_utils.assign_peaks_to_grains, refinegrains.assignlabels. "
+              "The instrumented scheduler / TSan tiers for this kernel are part of C20/C13 machinery.")
+LEVEL_NOTE = ("Trusts numpy longdouble, Python fractions (dyadic scenarios) and the harness geometry model; ties = errors within the "
+              "double-rounding band (1e-9 relative + 1e-11(1+|h|)sqrt(err)) of "
+              "the minimum; tolerance margin as in C06; thread schedules are those the OS produces (no schedule control here); quick "
+              "tier runs two team sizes on peak lists below one 4096 chunk and all nine above; histories that present one label twice "
+              "over persisted arrays are outside the statement and not judged; indexer.getind with default scratch arrays after a ring "
+              "assignment with off-ring peaks is refused by the wrapper (ValueError) - recorded, not judged.")
 
 RULE = ("a scenario = (grain set class, n peaks, tol, noise); non-trivial = at least one peak is indexed within tolerance by two or "
         "more grains (competition) ; distinct = (class, ngrains, npeaks, tol, noise, route)")
+# Histories that present one label twice over persisted label/error arrays (the second presentation releases the peaks of an
+# unchanged grain, stale errors block other grains) are not judged: no caller persists the arrays and the statement speaks
+# about one pass over a list of grains.
 
 LD = np.longdouble
 THREADS = (1, 2, 3, 4, 7, 8, 16, 32, 64)
@@ -112,16 +132,48 @@ def gen_grains(r, cls, ng):
     return cell, UBs
 
 
+CLASSES = ["independent", "near-duplicate", "twin", "exact-duplicate"]
+NGRAINS = [1, 2, 3, 4, 5, 8, 20, 50]
+NPEAKS = [1, 17, 300, 4095, 4096, 4097, 8191, 8193, 12289, 1000]
+INITS = ["fresh", "fresh", "fresh", "zeros", "zeros", "random-names", "random-names", "last-name"]
+
+
+def return_interval(errs, order, tol, hmax, init):
+    """[lo, hi] for the value returned by every score_and_assign call of a pass in the given order (number of peaks the
+    call takes): sequential model in longdouble; a peak inside the rounding band of the tolerance or of the stored error may
+    or may not be taken"""
+    t2 = LD(tol) * LD(tol)
+    bw = 1e-9 * tol * tol + 1e-11 * (1.0 + hmax) * tol
+    n = errs.shape[1]
+    st_lo = np.full(n, LD(init))      # smallest error that may be stored so far
+    st_hi = np.full(n, LD(init))      # largest error that may be stored so far
+    out = []
+    for g in order:
+        e = errs[g]
+        tie = 1e-9 * e + 1e-11 * (1.0 + hmax) * np.sqrt(e) + 1e-22
+        sure = (e < t2 - bw) & (e < st_lo - tie)
+        maybe = (e < t2 + bw) & (e < st_hi + tie)
+        out.append((int(sure.sum()), int(maybe.sum())))
+        st_lo = np.where(maybe, np.minimum(st_lo, e), st_lo)
+        st_hi = np.where(sure, np.minimum(st_hi, e), st_hi)
+    return out
+
+
 def scenario_direct(run, seed, idx, cImageD11, indexing):
     r = rng(seed, "C07", "d", idx)
-    cls = ["independent", "near-duplicate", "twin", "exact-duplicate"][idx % 4]
-    ng = int([1, 2, 3, 4, 5, 8, 20, 50][idx % 8])
-    sizes = [1, 17, 300, 4095, 4096, 4097, 8191, 8193, 12289, 1000]
-    n = int(sizes[idx % len(sizes)])
+    # class, grain count, peak count and initial label state are drawn from the scenario's own generator (they used to be
+    # locked together through idx % 4, idx % 8, idx % 10)
+    cls = CLASSES[int(r.integers(4))]
+    ng = int(NGRAINS[int(r.integers(len(NGRAINS)))])
+    n = int(NPEAKS[int(r.integers(len(NPEAKS)))])
     if idx % 41 == 5:
         n = 100000 if run.tier == "thorough" else 30000
+    if ng * n > 2.5e5 and idx % 41 != 5 and run.tier == "quick":
+        n = int(NPEAKS[int(r.integers(3))])        # keep the quick tier inside its time budget
     tol = float(r.choice([0.01, 0.05, 0.1, 0.25, 0.5]))
     noise = float(r.choice([0.0, 1e-3, 0.02, 0.1]))
+    initk = INITS[int(r.integers(len(INITS)))]
+    dinit = float(r.choice([2.0, 1.0]))            # fight_over_peaks starts from 2, assignlabels and the notebooks from 1
     cell, UBs = gen_grains(r, cls, ng)
     ubis = [np.ascontiguousarray(np.linalg.inv(u)) for u in UBs]
     hmax = 6
@@ -134,33 +186,57 @@ def scenario_direct(run, seed, idx, cImageD11, indexing):
     junk = r.random(n) < 0.15
     gv[junk] = r.uniform(-1, 1, (int(junk.sum()), 3))
     gv = np.ascontiguousarray(gv)
-    desc = dict(index=idx, route="direct", cls=cls, ngrains=ng, npeaks=n, tol=tol, noise=noise, cell=cell)
+    # stale content of the label array: every value is a name that IS presented in the pass, so one pass must bring every
+    # peak to its arg-min grain or to -1 (a stale name whose grain does not index the peak has to be released)
+    if initk == "fresh":
+        lab0 = np.full(n, -1, np.int32)
+    elif initk == "zeros":
+        lab0 = np.zeros(n, np.int32)
+    elif initk == "random-names":
+        lab0 = r.integers(0, ng, n).astype(np.int32)
+    else:
+        lab0 = np.full(n, ng - 1, np.int32)
+    desc = dict(index=idx, route="direct", cls=cls, ngrains=ng, npeaks=n, tol=tol, noise=noise, cell=cell,
+                initial_labels=initk, initial_error=dinit)
     errs = ref_errors(ubis, gv)
     names = np.arange(ng)
+    run.count("class_%s_ng%d" % (cls, ng))
+    run.count("initial_labels_%s" % initk)
 
     def V(key, what, peak=None):
         run.violation(key, what, dict(desc, peak=peak))
 
     def run_assign(order, nthreads):
         cImageD11.cimaged11_omp_set_num_threads(nthreads)
-        drlv2 = np.full(n, 2.0)
-        labels = np.full(n, -1, np.int32)
+        drlv2 = np.full(n, dinit)
+        labels = lab0.copy()
         rets = []
         for g in order:
             rets.append(int(cImageD11.score_and_assign(ubis[g], gv, tol, drlv2, labels, int(g))))
         return labels, drlv2, rets
 
     lab1, d1, rets1 = run_assign(range(ng), 1)
-    competing = judge(run, V, errs, tol, hmax + 1, lab1, d1, 2.0, names, "score_and_assign")
+    competing = judge(run, V, errs, tol, hmax + 1, lab1, d1, dinit, names, "score_and_assign")
     run.case((cls, ng, n, tol, noise, "direct"), nontrivial=bool(competing),
              sample=dict(desc, competing_peaks=competing))
     run.count("competing_peaks", competing or 0)
+    if initk != "fresh":
+        # peaks that held a stale name and end unassigned went through the release branch
+        run.count("stale_labels_released", int(((lab0 != -1) & (lab1 == -1)).sum()))
+    # the value returned by each call: number of peaks taken in that call
+    for g, (lo, hi), got in zip(range(ng), return_interval(errs, range(ng), tol, hmax + 1, dinit), rets1):
+        run.count("return_values_judged")
+        if not lo <= got <= hi:
+            V("score_and_assign:return-value", "call for grain %d returned %d, the sequential reference takes between %d and %d "
+              "peaks in that call" % (g, got, lo, hi))
+            break
     # conservation
     cnt = np.bincount(lab1[lab1 >= 0], minlength=ng)
     if cnt.sum() + int((lab1 == -1).sum()) != n:
         V("score_and_assign:conservation", "counts do not add up")
-    # threads
-    for nt in THREADS[1:]:
+    # threads (quick tier: a peak list below the 4096 static chunk is one chunk, i.e. one working thread whatever the team
+    # size - two team sizes are enough there; the thorough tier runs every team size on every scenario)
+    for nt in (THREADS[1:] if (n >= 4096 or run.tier != "quick") else (3, 64)):
         lab, d, rets = run_assign(range(ng), nt)
         run.count("thread_runs")
         if not (np.array_equal(lab, lab1) and np.array_equal(d, d1) and rets == rets1):
@@ -171,31 +247,283 @@ def scenario_direct(run, seed, idx, cImageD11, indexing):
     e_sorted = np.sort(errs, axis=0)
     uniq = np.ones(n, bool) if ng == 1 else (e_sorted[1] - e_sorted[0] > 1e-8 * e_sorted[1] + 1e-10 * (2.0 + hmax) * np.sqrt(e_sorted[1]) + 1e-18)
     perms = list(itertools.permutations(range(ng))) if ng <= 4 else \
-        [list(r.permutation(ng)) for _ in range(6 if run.tier == "quick" else 20)]
+        [[int(x) for x in r.permutation(ng)] for _ in range(4 if run.tier == "quick" else 20)]
     for pm in perms[1:] if ng <= 4 else perms:
         lab, d, rets = run_assign(pm, 4)
         run.count("permutation_runs")
-        judge(run, V, errs, tol, hmax + 1, lab, d, 2.0, names, "score_and_assign")
+        judge(run, V, errs, tol, hmax + 1, lab, d, dinit, names, "score_and_assign")
+        for g, (lo, hi), got in zip(pm, return_interval(errs, pm, tol, hmax + 1, dinit), rets):
+            run.count("return_values_judged")
+            if not lo <= got <= hi:
+                V("score_and_assign:return-value", "order %r: call for grain %d returned %d, the sequential reference takes "
+                  "between %d and %d peaks in that call" % (list(pm), g, got, lo, hi))
+                break
         if not np.array_equal(lab[uniq], lab1[uniq]) or not np.array_equal(d[uniq], d1[uniq]):
             k = int(np.nonzero(uniq & ((lab != lab1) | (d != d1)))[0][0])
             V("score_and_assign:order-dependent", "peak %d: label %r with grain order %r but %r with natural order (no tie)"
               % (k, lab[k], list(pm), lab1[k]), k)
             break
-    # the same through indexer.fight_over_peaks
-    import logging
-    logging.disable(logging.CRITICAL)
-    try:
+    # the same through indexer.fight_over_peaks: natural order, then a permuted list at a thread count of its own
+    with contextlib.redirect_stdout(io.StringIO()):      # ImageD11.indexing logs through print()
         ix = indexing.indexer(unitcell=None, gv=gv, hkl_tol=tol)
-    finally:
-        logging.disable(logging.NOTSET)
-    ix.ubis = [u.copy() for u in ubis]
+    for rep in range(2):
+        pm = list(range(ng)) if rep == 0 else [int(x) for x in r.permutation(ng)]
+        nt = 4 if rep == 0 else int(r.choice(THREADS))
+        cImageD11.cimaged11_omp_set_num_threads(nt)
+        ix.ubis = [ubis[g].copy() for g in pm]
+        ix.fight_over_peaks()
+        run.count("fight_over_peaks_runs")
+        # label i of the indexer = grain pm[i]
+        fnames = np.argsort(pm)
+        judge(run, V, errs, tol, hmax + 1, ix.ga, ix.drlv2, 2.0, fnames, "fight_over_peaks")
+        if not np.array_equal(np.asarray(ix.gas), np.bincount(ix.ga[ix.ga >= 0], minlength=ng)):
+            V("fight_over_peaks:gas", "per-grain counts %r != histogram of labels" % (list(ix.gas),))
+        if int(np.sum(ix.gas)) + int((ix.ga == -1).sum()) != n:
+            V("fight_over_peaks:conservation", "sum(gas) + unassigned != npeaks")
+        grain_of = np.where(ix.ga >= 0, np.asarray(pm)[np.where(ix.ga >= 0, ix.ga, 0)], -1)
+        if rep == 0:
+            grain_of0 = grain_of
+        elif not np.array_equal(grain_of[uniq], grain_of0[uniq]):
+            k = int(np.nonzero(uniq & (grain_of != grain_of0))[0][0])
+            V("fight_over_peaks:order-dependent", "peak %d goes to grain %r when the grain list is presented as %r but to grain "
+              "%r in natural order (no tie)" % (k, grain_of[k], pm, grain_of0[k]), k)
+    cImageD11.cimaged11_omp_set_num_threads(4)
+
+
+def exact_errors(ubis, hk_over):
+    """exact squared hkl errors (Fractions) for dyadic inputs; hk_over[i] = g-vector as exact floats"""
+    out = []
+    for u in ubis:
+        row = []
+        for g in hk_over:
+            s = Fraction(0)
+            for i in range(3):
+                x = sum(Fraction(float(u[i, j])) * Fraction(float(g[j])) for j in range(3))
+                t = x - round(x)
+                s += t * t
+            row.append(s)
+        out.append(row)
+    return out
+
+
+def scenario_exact(run, seed, k, cImageD11):
+    """Power-of-two UBIs and dyadic g-vectors: every operation of the kernel is exact in double, so the labels and stored errors
+    must equal an exact rational arg-min bit for bit - including peaks whose error equals tol^2 exactly (not indexed: strict '<')
+    and peaks fitted equally well by two grains (either label, 'apart from exact ties')."""
+    r = rng(seed, "C07", "x", k)
+    pats = {0.5: [(0.5, 0, 0)], 0.25: [(0.25, 0, 0)], 0.125: [(0.125, 0, 0)],
+            0.375: [(0.25, 0.25, 0.125), (0.375, 0, 0)], 0.1875: [(0.125, 0.125, 0.0625)]}
+    tol = float(list(pats)[int(r.integers(len(pats)))])
+    ng = int(r.integers(1, 4))
+    ubis = []
+    for g in range(ng):
+        u = np.zeros((3, 3))
+        perm = r.permutation(3)
+        for i in range(3):
+            u[i, perm[i]] = r.choice([-1.0, 1.0]) * 2.0 ** int(r.integers(0, 4))
+        ubis.append(np.ascontiguousarray(u))
+    n = int(r.choice([8, 40, 200]))
+    own = r.integers(0, ng, n)
+    eps = 2.0 ** -20
+    gv = np.empty((n, 3))
+    for i in range(n):
+        p = np.array(pats[tol][int(r.integers(len(pats[tol])))])[r.permutation(3)] * r.choice([-1.0, 1.0], 3)
+        j = int(np.argmax(np.abs(p)))
+        c = int(r.integers(4))
+        if c == 1:
+            p[j] -= np.sign(p[j]) * eps
+        elif c == 2:
+            p[j] += np.sign(p[j]) * eps
+        elif c == 3:
+            p = p * 0.5
+        hk = r.integers(-40, 41, 3).astype(float) + p
+        gv[i] = np.linalg.inv(ubis[own[i]]) @ hk          # exact: one product of a power of two per component
+    gv = np.ascontiguousarray(gv)
+    E = exact_errors(ubis, gv)
+    t2 = Fraction(tol) * Fraction(tol)
+    desc = dict(index=k, route="exact", tol=tol, ngrains=ng, npeaks=n, ubis=[u.tolist() for u in ubis])
+    at_tol = sum(1 for g in range(ng) for i in range(n) if E[g][i] == t2)
+    ties = 0
+    want = []
+    for i in range(n):
+        col = [E[g][i] for g in range(ng)]
+        m = min(col)
+        if m < t2:
+            w = [g for g in range(ng) if col[g] == m]
+            ties += len(w) > 1
+            want.append((w, float(m)))
+        else:
+            want.append(([-1], None))
+    run.case(("exact", tol, ng, n), nontrivial=at_tol > 0, sample=dict(desc, at_tol=at_tol, exact_ties=ties))
+    run.count("exact_scenarios")
+    run.count("exact_errors_at_tolerance", at_tol)
+    run.count("exact_ties", ties)
+    for nt in (1, 4):
+        for order in (list(range(ng)), list(range(ng))[::-1]):
+            cImageD11.cimaged11_omp_set_num_threads(nt)
+            labels = np.full(n, -1, np.int32)
+            drlv2 = np.full(n, 1.0)
+            for g in order:
+                cImageD11.score_and_assign(ubis[g], gv, tol, drlv2, labels, int(g))
+            for i in range(n):
+                w, m = want[i]
+                if labels[i] not in w:
+                    run.violation("exact:label", "peak %d labelled %d, exact arg-min within tol (strict) is %r (errors %r, tol^2 %r)"
+                                  % (i, labels[i], w, [float(E[g][i]) for g in range(ng)], float(t2)),
+                                  dict(desc, peak=i, order=order, threads=nt))
+                    break
+                if (m is None and drlv2[i] != 1.0) or (m is not None and drlv2[i] != m):
+                    run.violation("exact:stored-error", "peak %d stored error %r, exact minimum %r" % (i, drlv2[i], m),
+                                  dict(desc, peak=i, order=order, threads=nt))
+                    break
+    cImageD11.cimaged11_omp_set_num_threads(4)
+
+
+def scenario_indexer(run, seed, k, mods):
+    """the consumers of the labels in ImageD11.indexing (getind, saveindexing) and the notebook helper
+    nb_utils.assign_peaks_to_grains (label array initialised with zeros)"""
+    cImageD11, indexing, unitcell, columnfile, grain, nb_utils = mods
+    r = rng(seed, "C07", "i", k)
+    cls = CLASSES[int(r.integers(4))]
+    ng = int(r.choice([1, 2, 3, 5, 8]))
+    n = int(r.choice([30, 400, 2000]))
+    tol = float(r.choice([0.02, 0.05, 0.1, 0.25]))
+    noise = float(r.choice([0.0, 1e-3, 0.02]))
+    cell, UBs = gen_grains(r, cls, ng)
+    ubis = [np.ascontiguousarray(np.linalg.inv(u)) for u in UBs]
+    hmax = 2
+    own = r.integers(0, ng, n)
+    h = r.integers(-hmax, hmax + 1, (n, 3)).astype(float)
+    h[(h == 0).all(axis=1)] = [1, 0, 0]
+    gv = np.empty((n, 3))
+    for g in range(ng):
+        m = own == g
+        gv[m] = (h[m] + r.normal(0, 1, (int(m.sum()), 3)) * noise) @ UBs[g].T
+    junk = r.random(n) < 0.2
+    gmax = float(np.abs(gv).max())
+    gv[junk] = r.uniform(-gmax, gmax, (int(junk.sum()), 3))
+    gv = np.ascontiguousarray(gv)
+    errs = ref_errors(ubis, gv)
+    t2 = LD(tol) * LD(tol)
+    bw = 1e-9 * tol * tol + 1e-11 * (2.0 + hmax) * tol
+    desc = dict(index=k, route="indexer", cls=cls, ngrains=ng, npeaks=n, tol=tol, noise=noise, cell=cell)
+    names = np.arange(ng)
+
+    def V(key, what, peak=None):
+        run.violation(key, what, dict(desc, peak=peak))
+
+    quiet = contextlib.redirect_stdout(io.StringIO())         # ImageD11.indexing logs through print()
+    with quiet:
+        ix = indexing.indexer(unitcell=None, gv=gv.copy(), hkl_tol=tol, wavelength=0.3)
+    # ---- an empty list of grains: everything unassigned
+    ix.ubis = []
     ix.fight_over_peaks()
-    run.count("fight_over_peaks_runs")
-    judge(run, V, errs, tol, hmax + 1, ix.ga, ix.drlv2, 2.0, names, "fight_over_peaks")
-    if not np.array_equal(np.asarray(ix.gas), np.bincount(ix.ga[ix.ga >= 0], minlength=ng)):
-        V("fight_over_peaks:gas", "per-grain counts %r != histogram of labels" % (list(ix.gas),))
-    if int(np.sum(ix.gas)) + int((ix.ga == -1).sum()) != n:
-        V("fight_over_peaks:conservation", "sum(gas) + unassigned != npeaks")
+    run.count("fight_over_peaks_empty_list")
+    if not ((np.asarray(ix.ga) == -1).all() and len(ix.gas) == 0 and len(ix.ga) == n):
+        V("fight_over_peaks:empty-list", "an empty grain list does not leave every peak unassigned")
+    # ---- getind: peaks indexed by one matrix (defaults, and caller-supplied scratch arrays as scorethem does)
+    for g in range(min(ng, 3)):
+        for how in ("default", "scratch"):
+            if how == "default":
+                m = ix.getind(ubis[g])
+            else:
+                m = ix.getind(ubis[g], drlv2tmp=np.empty(n, float), labelstmp=np.full(n, 7, np.int32))
+            run.count("getind_calls")
+            m = np.asarray(m)
+            if m.shape != (n,) or (m & (errs[g] > t2 + bw)).any() or (~m & (errs[g] < t2 - bw)).any():
+                V("getind:%s" % how, "getind does not return exactly the peaks within tolerance of the matrix")
+    # ---- saveindexing: fight_over_peaks + refine_assigned per grain (asserts npk == gas[i]) + listing
+    ix.ubis = [u.copy() for u in ubis]
+    ix.ra = np.where(r.random(n) < 0.8, 0, -1).astype(np.int32)       # as left by assigntorings: ring number or -1
+    ix.xp, ix.yp = r.uniform(0, 2048, n), r.uniform(0, 2048, n)
+    ix.omega, ix.eta = r.uniform(-180, 180, n), r.uniform(-180, 180, n)
+    ix.tth = np.degrees(2 * np.arcsin(np.clip(0.3 * ix.ds / 2, 0, 1)))
+    os.makedirs(os.path.join(WORK, "tmp"), exist_ok=True)
+    fd, fn = tempfile.mkstemp(prefix="c07_", suffix=".ubi_log", dir=os.path.join(WORK, "tmp"))
+    os.close(fd)
+    try:
+        try:
+            with quiet, warnings.catch_warnings():
+                warnings.simplefilter("ignore")
+                ix.saveindexing(fn)
+            err = None
+        except AssertionError as e:
+            err = e
+        run.count("saveindexing_runs")
+        if err is not None:
+            V("saveindexing:assertion", "saveindexing: refine_assigned count differs from the label histogram (assert npk == gas[i])")
+            return
+        txt = open(fn).read()
+    finally:
+        os.unlink(fn)
+    ga = np.asarray(ix.ga)
+    competing = judge(run, V, errs, tol, hmax + 1, ga, ix.drlv2, 2.0, names, "saveindexing")
+    run.case((cls, ng, n, tol, noise, "indexer"), nontrivial=bool(competing) or ng > 1, sample=dict(desc, competing_peaks=competing))
+    blocks = re.split(r"^Grain: ", txt.split("And now listing via peaks")[0], flags=re.M)[1:]
+    if len(blocks) != ng:
+        V("saveindexing:grains", "%d grain blocks written for %d grains" % (len(blocks), ng))
+        return
+    for i, b in enumerate(blocks):
+        m = re.match(r"(\d+)\s+Npeaks=(\d+)\s+<drlv>=(\S+)", b)
+        members = np.nonzero(ga == i)[0]
+        listed = [int(x) for x in re.findall(r"^(\d+)\s+\(", b, flags=re.M)]
+        run.count("saveindexing_grains_checked")
+        if m is None or int(m.group(1)) != i or int(m.group(2)) != len(members):
+            V("saveindexing:npeaks", "grain %d header %r, but %d peaks carry its label" % (i, b.splitlines()[0], len(members)))
+            continue
+        if listed != members.tolist():
+            V("saveindexing:members", "peaks listed under grain %d are not the peaks labelled %d" % (i, i))
+        if len(members):
+            want = float(np.sqrt(errs[i, members].sum() / len(members)))
+            # %f prints 6 decimals
+            if abs(float(m.group(3)) - want) > 6e-7 + 1e-9 * want:
+                V("saveindexing:mean-drlv", "grain %d <drlv>=%s, reference sqrt(mean drlv2) over its peaks %.7f" % (i, m.group(3), want))
+            # per-peak columns: h k l (4 decimals) and drlv (8 decimals)
+            rows = re.findall(r"^(\d+)\s+\(\s*(\S+)\s+(\S+)\s+(\S+)\s*\)\s+(\S+)", b, flags=re.M)
+            hk = gv[members] @ ubis[i].T
+            for (pk, h0, h1, h2, dr), hr, j in zip(rows, hk, members):
+                if np.abs(np.array([float(h0), float(h1), float(h2)]) - hr).max() > 6e-5 + 1e-9 or \
+                        abs(float(dr) - float(np.sqrt(errs[i, j]))) > 6e-9 + 1e-7 * float(np.sqrt(errs[i, j])):
+                    V("saveindexing:peak-line", "grain %d peak %d line (%s %s %s) drlv %s differs from hkl %r drlv %.9f"
+                      % (i, j, h0, h1, h2, dr, hr.tolist(), float(np.sqrt(errs[i, j]))), int(j))
+                    break
+    m = re.search(r"Peaks assigned to grains (\d+)", txt)
+    if m is None or int(m.group(1)) != int(((ix.ra > -1) & (ga != -1)).sum()):
+        V("saveindexing:totals", "'Peaks assigned to grains' line %r != %d ring-assigned peaks with a label"
+          % (m and m.group(0), int(((ix.ra > -1) & (ga != -1)).sum())))
+    # ---- getind after a real ring assignment with off-ring peaks (junk): only recorded.  The default scratch arrays are sized
+    # by the ring-assigned subset while all g-vectors are passed, so the wrapper refuses the call (ValueError): an interface
+    # failure, not a wrong label - reported to the coordinator, not judged
+    if k % 4 == 0:
+        with quiet:
+            uc = unitcell.unitcell(cell, "P")
+            ix2 = indexing.indexer(unitcell=uc, gv=gv.copy(), hkl_tol=tol, wavelength=0.3)
+            ix2.assigntorings()
+            nr = int((ix2.ra == -1).sum())
+            try:
+                m2 = np.asarray(ix2.getind(ubis[0]))
+                run.count("getind_default_after_assigntorings_ok")
+                if m2.shape != (n,) or (m2 & (errs[0] > t2 + bw)).any() or (~m2 & (errs[0] < t2 - bw)).any():
+                    V("getind:after-assigntorings", "getind does not return exactly the peaks within tolerance of the matrix")
+            except ValueError:
+                run.count("getind_default_after_assigntorings_raises_ValueError")
+                run.extra["getind_default_offring_observation"] = (
+                    "indexer.getind(UBI) with default scratch arrays raises ValueError after assigntorings() when %d of %d peaks "
+                    "are off-ring (arrays sized len(gvflat), g-vectors len(gv))" % (nr, n))
+            m3 = np.asarray(ix2.getind(ubis[0], drlv2tmp=np.empty(n, float), labelstmp=np.empty(n, np.int32)))
+            run.count("getind_calls")
+            if m3.shape != (n,) or (m3 & (errs[0] > t2 + bw)).any() or (~m3 & (errs[0] < t2 - bw)).any():
+                V("getind:scratch:after-assigntorings", "getind does not return exactly the peaks within tolerance of the matrix")
+    # ---- the notebook helper: labels start as zeros, errors as ones; grain i is label i
+    if nb_utils is not None:
+        cf = columnfile.colfile_from_dict({"gx": gv[:, 0].copy(), "gy": gv[:, 1].copy(), "gz": gv[:, 2].copy()})
+        grains = [grain.grain(u.copy()) for u in ubis]
+        with quiet, contextlib.redirect_stderr(io.StringIO()):
+            nb_utils.assign_peaks_to_grains(grains, cf, tol)
+        run.count("nb_utils_assign_runs")
+        lab = np.asarray(cf.grain_id).astype(int)
+        run.count("stale_labels_released", int((lab == -1).sum()))
+        judge(run, V, errs, tol, hmax + 1, lab, np.asarray(cf.drlv2, float), 1.0, names, "assign_peaks_to_grains")
 
 
 def scenario_refinegrains(run, seed, idx, mods):
@@ -312,17 +640,38 @@ def scenario_refinegrains(run, seed, idx, mods):
 
 
 def check(run, replay=None):
-    from ImageD11 import cImageD11, indexing, refinegrains, columnfile, parameters, grain
+    from ImageD11 import cImageD11, indexing, refinegrains, columnfile, parameters, grain, unitcell
     mods = (cImageD11, refinegrains, columnfile, parameters, grain)
+    try:
+        with contextlib.redirect_stdout(io.StringIO()), contextlib.redirect_stderr(io.StringIO()):
+            from ImageD11.nbGui import nb_utils
+    except Exception as e:      # optional GUI dependencies: the helper's loop is then not observable here
+        nb_utils = None
+        run.extra["nb_utils_import_failed"] = repr(e)
+    imods = (cImageD11, indexing, unitcell, columnfile, grain, nb_utils)
     if replay is not None:
         cs = replay["case"]
         if cs.get("route") == "refinegrains":
             scenario_refinegrains(run, replay["seed"], cs["index"], mods)
+        elif cs.get("route") == "exact":
+            scenario_exact(run, replay["seed"], cs["index"], cImageD11)
+        elif cs.get("route") == "indexer":
+            scenario_indexer(run, replay["seed"], cs["index"], imods)
         else:
             scenario_direct(run, replay["seed"], cs["index"], cImageD11, indexing)
         run.nontrivial.update(["replay", "replay2"])
         return
-    nd, nr = (120, 30) if run.tier == "quick" else (2500, 500)
+    nd, nr, nx, ni = (120, 30, 100, 24) if run.tier == "quick" else (1200, 500, 3000, 600)
+    # VERIF_C07_FRACTION=<0..1> runs a reduced thorough tier (same generators, fewer scenarios) for a loaded machine; the
+    # fraction is recorded in the evidence
+    frac = float(os.environ.get("VERIF_C07_FRACTION", "1") or 1)
+    if run.tier != "quick" and 0 < frac < 1:
+        nd, nr, nx, ni = [max(30, int(x * frac)) for x in (nd, nr, nx, ni)]
+        run.extra["thorough_fraction"] = frac
+    for i in range(nx):
+        scenario_exact(run, run.seed, i, cImageD11)
+    for i in range(ni):
+        scenario_indexer(run, run.seed, i, imods)
     for i in range(nd):
         scenario_direct(run, run.seed, i, cImageD11, indexing)
     for i in range(nr):
@@ -330,7 +679,6 @@ def check(run, replay=None):
     run.extra["thread_counts"] = list(THREADS)
     # controlled scheduler (vrt.c): score_and_assign at chunk-boundary peak counts, 2..64 threads, seeded interleavings;
     # every result must equal the sequential single-thread one
-    import os
     if not os.environ.get("VERIF_ASAN_RERUN"):
         from .. import sched_kernels
         sched_kernels.attach(run, ["score_and_assign"], 24 if run.tier == "quick" else 240,
@@ -342,3 +690,23 @@ def check(run, replay=None):
     run.require_counter("thread_runs", 100)
     run.require_counter("assignlabels_runs", 5)
     run.require_counter("multiscan_runs", 3)
+    run.require_counter("return_values_judged", 200)
+    run.require_counter("stale_labels_released", 1000)
+    run.require_counter("initial_labels_zeros", 5)
+    run.require_counter("initial_labels_random-names", 5)
+    run.require_counter("exact_errors_at_tolerance", 100)
+    run.require_counter("exact_ties", 10)
+    run.require_counter("saveindexing_grains_checked", 20)
+    run.require_counter("getind_calls", 20)
+    run.require_counter("fight_over_peaks_empty_list", 5)
+    if nb_utils is not None:
+        run.require_counter("nb_utils_assign_runs", 5)
+    # keep the evidence readable: fold the (class, grain count) table into one coverage entry
+    cls = {k: v for k, v in run.counters.items() if k.startswith("class_")}
+    for k in cls:
+        del run.counters[k]
+    run.extra["class_x_ngrains_scenarios"] = cls
+    seen_cls = {c: sorted(int(k.split("_ng")[1]) for k in cls if k.startswith("class_%s_ng" % c)) for c in CLASSES}
+    for c, ngs in seen_cls.items():
+        if len(ngs) < 5:
+            run.inconc("grain class %s only ran with grain counts %r" % (c, ngs))
